@@ -183,13 +183,29 @@ def group_cases(tier, seed):
     gen = gen_cases(tier, seed + 7)
     pool = [c for c, _ in zip(gen, range(60 if tier == "quick" else 400))
             if all(x[2] > 0 for x in c["rem"])]
+    # different remainders over denominators of the same shape: the third term can be mapped
+    # onto the denominators of both others
+    yield {"raw": "three-denominators"}
     for _ in range(25 if tier == "quick" else 300):
         yield {"terms": rng.sample(pool, rng.randint(2, 4)), "target": ""}
 
 
+def _raw_three_denominators():
+    from adcgen.indices import get_symbols
+    from adcgen.sympy_objects import NonSymmetricTensor
+    i, j, a, b = get_symbols("ijab")
+    e = lambda s_: NonSymmetricTensor("e", (s_,))    # noqa: E731
+    X = NonSymmetricTensor("X", (i, j, a, b))
+    Y = NonSymmetricTensor("Y", (i, j)) * NonSymmetricTensor("Y", (j, i))
+    W = NonSymmetricTensor("W", (a, b)) * NonSymmetricTensor("W", (b, a))
+    return X / (e(j) - e(a)) + X / (e(i) - e(b)) + Rational(3, 2) * Y * W / (e(i) - e(a))
+
+
 def group_check(case):
     total = S.Zero
-    for c in case["terms"]:
+    if case.get("raw"):
+        total = _raw_three_denominators()
+    for c in case.get("terms", []):
         _, s = build(dict(c, target=""))
         total += s
     e = Expr(total, real=True, target_idx=[]).expand()
@@ -206,6 +222,12 @@ def group_check(case):
         v = sum((evaluate(q.sympy, {}, model) for q in sub), Fraction(0))
         if v != evaluate(p.sympy, {}, model):
             return False, f"factor_denom of {p}: parts sum to {v}"
+    # grouping by denominators alone (terms with different remainders)
+    sub = factor_denom(e)
+    v = sum((evaluate(q.sympy, {}, model) for q in sub), Fraction(0))
+    if v != ref:
+        return False, (f"factor_denom of {e}: the {len(sub)} groups sum to {v}, expression is {ref} "
+                       f"(groups hold {sum(len(q.terms) for q in sub)} terms, the expression {len(e.terms)})")
     return True, ""
 
 
